@@ -57,6 +57,18 @@ def _rename_locals(e, off):
     return out
 
 
+def _pure_or_const_calls(e):
+    """no assignment / increment; calls only of the is_zero / equal / compare kind (const observers)"""
+    for x in walk(e):
+        if not isinstance(x, dict):
+            continue
+        if x.get('k') in ('assign', 'lcall', 'lambda') or (x.get('k') == 'un' and x.get('op') in ('++', '--')):
+            return False
+        if x.get('k') == 'call' and x.get('name') not in ('is_zero', 'is_one', 'equal', 'compare', 'bit', 'is_normalized', 'is_odd', 'is_even'):
+            return False
+    return True
+
+
 def _pure(e):
     return not any(isinstance(x, dict) and (x.get('k') in ('call', 'assign', 'lcall') or (x.get('k') == 'un' and x.get('op') in ('++', '--')))
                    for x in walk(e))
@@ -327,6 +339,27 @@ class CFG:
         s0 = stmts[0]
         if s0.get('k') == 'compound':
             return cls._return_expr(list(s0.get('body', [])) + stmts[1:])
+        if s0.get('k') == 'decl' and len(s0.get('vars', [])) == 1:
+            # `const bool x = E;` in front: x names E in what follows (E side-effect free, x never written: it is const)
+            v = s0['vars'][0]
+            t = v.get('t') or {}
+            if t.get('k') == 'bool' and t.get('const') and v.get('init') is not None and _pure_or_const_calls(v['init']):
+                rest = cls._return_expr(stmts[1:])
+                if rest is None:
+                    return None
+
+                def sub(n):
+                    if isinstance(n, list):
+                        return [sub(y) for y in n]
+                    if not isinstance(n, dict):
+                        return n
+                    if n.get('k') == 'load' and isinstance(n.get('e'), dict) and n['e'].get('k') == 'ref' and n['e'].get('rk') == 'local' and n['e'].get('id') == v.get('id'):
+                        return v['init']
+                    if n.get('k') == 'ref' and n.get('rk') == 'local' and n.get('id') == v.get('id'):
+                        return v['init']
+                    return {k_: (sub(x_) if k_ not in ('t', 'l') else x_) for k_, x_ in n.items()}
+                return sub(rest)
+            return None
         if s0.get('k') == 'return':
             return s0.get('e')
         if s0.get('k') == 'if' and s0.get('c') is not None:
